@@ -640,7 +640,9 @@ class ExtendedKalmanFilter:
         assert_valid_covariance(covariance.data)
 
         self.sensor_prediction_uncertainty[sensor_key] = S_t = (
-            np.matmul(H_t, np.matmul(covariance.data, H_t.transpose())) + Q_t.data
+            np.matmul(H_t, np.matmul(covariance.data, H_t.transpose()))
+            # per-reading noise is stored as a (sensor_size, 1) vector of variances
+            + np.diag(Q_t.data.flatten())
         )
         assert_valid_covariance(S_t, name="Sensor Uncertainty")
 
